@@ -120,12 +120,16 @@ def names_of(f, acc=None):
     return acc
 
 
-def _val(m, name):
-    v = m.eval(zv(name), model_completion=True)
-    try:
+def _num(v):
+    if z3.is_int_value(v):
+        return F(v.as_long())
+    if z3.is_rational_value(v):
         return F(v.numerator_as_long(), v.denominator_as_long())
-    except Exception:
-        return F(str(v.as_fraction()))
+    raise Inconclusive("non-rational value %s" % v)
+
+
+def _val(m, name):
+    return _num(m.eval(zv(name), model_completion=True))
 
 
 QUERIES = [0]
@@ -218,10 +222,7 @@ def optimum(formulas, objective, maximize=True):
         return "unbounded", None
     if "epsilon" in s:
         raise Inconclusive("strict optimum")
-    try:
-        return "value", F(v.numerator_as_long(), v.denominator_as_long())
-    except Exception:
-        return "value", F(str(v.as_fraction()))
+    return "value", _num(v)
 
 
 def term_lhs(t, pt):
